@@ -23,7 +23,9 @@ PARTIAL = ["C13_fixed_point: proved on the JSON level (pcf_json (pcf_json j) = p
            "(C13_fixed_point_partial) under the hypothesis that the parser accepts the canonical JSON (that acceptance "
            "is not proved); outside ns_closed the statement is false of the specification's canonical form itself "
            "(C13_fixed_point_refuted) - checked on the implementation for every case",
-           "C13_same_encoding is not stated (needs the codec model)",
+           "C13_same_encoding: proved for the schema component (C13_same_encoding_schema) and, given equal erased tables, "
+           "for decoding (C13_same_encoding_partial); the equality of the erased tables of the two parses is evaluated on "
+           "every generated schema (same_encoding_check), not proved",
            "C13_spec / C13_cosmetic are stated for the class simple_raw (field names are strings, fixed sizes are "
            "integers, input not marked as already parsed); every generated schema is checked to be in the class"]
 
@@ -173,6 +175,7 @@ def run(ctx):
                           signature="C13:to_parsing_canonical_form:fixed-point:" +
                                     ("null-namespace-type-nested-in-namespaced-record" if null_ns_nested else "other"))
     run_piecewise(ctx)
+    run_bridge(ctx, [s for s, s2, e in cases[:(400 if ctx.quick() else 6000)]])
     ctx.notes["generator"] = stats
     ctx.notes["cosmetic_edits"] = edit_hist
     ctx.notes["rejected_schemas"] = both_raise
@@ -181,6 +184,43 @@ def run(ctx):
         raise RuntimeError("generator broken: %d of %d schemas rejected" % (both_raise, len(cases)))
     for s, s2, edits in cases[:3]:
         ctx.sample(dict(schema=s, rewrite=s2, edits=edits, canonical=impl_canon(s)))
+
+
+BRIDGE_IMPORTS = ("From Coq Require Import String.\n"
+                  "From FA Require Import model.Base model.Value model.Schema model.Json model.Parse model.Canon model.Bridge.\n")
+
+
+def run_bridge(ctx, schemas):
+    """corr:bridge: the Python printer harness/gallina.py schema_to_coq / env_to_coq (the glue every codec check uses to
+    hand fastavro's parsed schema to the model) against the in-Coq bridge schema_of_json / env_of_table applied to the
+    MODEL's parse output: the two terms must be equal (schema_eqb, env_eqb evaluated inside Coq)."""
+    from fastavro.schema import parse_schema
+    from .. import gallina
+    todo = []
+    for s in schemas:
+        named = {}
+        try:
+            parsed = parse_schema(copy.deepcopy(s), named)
+            ts, te = gallina.schema_to_coq(parsed), gallina.env_to_coq(named)
+        except Exception:
+            continue
+        todo.append((s, "show_bool (bridge_check %s %s %s)" % (sg.to_coq(s), ts, te)))
+    exprs = []
+    for s, e in todo:
+        # same_encoding_check: the hypothesis C13_same_encoding_partial leaves open (equal erased tables), evaluated
+        exprs += [e, "show_bool (same_encoding_check %s)" % sg.to_coq(s), "show_closed %s" % sg.to_coq(s)]
+    out = core.coq_eval(exprs, BRIDGE_IMPORTS, ctx.workdir, tag="bridge", shard=90 if ctx.quick() else 300)
+    for i, (s, e) in enumerate(todo):
+        m, same, closed = out[3 * i:3 * i + 3]
+        ctx.count("corr:bridge", json.dumps(s, sort_keys=True), nontrivial=nontrivial(s))
+        if m != "true":
+            ctx.violation("corr:bridge", case(s), impl="harness/gallina.py schema_to_coq(fastavro.parse_schema(s))", model=m,
+                          signature="C13:harness:gallina-printer-differs-from-bridge", found_input=False)
+        if closed == "true":
+            ctx.count("thm:same-encoding-instance", None, nontrivial=False)
+            if same != "true":
+                ctx.violation("thm:same-encoding-instance", case(s), impl=None, model=same,
+                              signature="C13:model:same-encoding-check-false", found_input=False)
 
 
 def run_piecewise(ctx):
